@@ -4,7 +4,7 @@ from __future__ import annotations
 
 import itertools
 
-from cai_causal_graph.identify_utils import identify_confounders, identify_markov_boundary, identify_mediators
+from cai_causal_graph.identify_utils import identify_confounders, identify_instruments, identify_markov_boundary, identify_mediators
 
 from . import dagsweep as D
 
@@ -141,6 +141,20 @@ def c19_reference(n, arcs):
                     exp = sorted(m for m in cand if not any(m in pruned[z] for z in conf))
             if got != exp:
                 return f'identify_mediators({N[s]!r},{N[d]!r}) = {[N[v] for v in got]}, by the declarative characterisation {[N[v] for v in exp]}'
+            # Node objects instead of identifiers (either or both arguments) must give the same answers; and nothing at all when the
+            # destination is an ancestor of the source
+            ins = sorted(ix[v] for v in identify_instruments(g, N[s], N[d]))
+            if s in reach[d] and (ins or got):
+                return f'destination {N[d]!r} is an ancestor of source {N[s]!r} but instruments = {[N[v] for v in ins]}, mediators = {[N[v] for v in got]}'
+            for form, (a, b) in (('Node, id', (g.get_node(N[s]), N[d])), ('id, Node', (N[s], g.get_node(N[d]))),
+                                 ('Node, Node', (g.get_node(N[s]), g.get_node(N[d])))):
+                for f, ref in ((identify_instruments, ins), (identify_mediators, got)):
+                    try:
+                        r = sorted(ix[v] for v in f(g, a, b))
+                    except Exception as e:  # noqa: BLE001
+                        return f'{f.__name__}({N[s]!r},{N[d]!r}) with arguments given as ({form}) raised {type(e).__name__}: {e}; with identifiers it returns {[N[v] for v in ref]}'
+                    if r != ref:
+                        return f'{f.__name__}({N[s]!r},{N[d]!r}) with arguments given as ({form}) = {[N[v] for v in r]}, with identifiers {[N[v] for v in ref]}'
     return None
 
 
